@@ -1101,7 +1101,7 @@ func (fa *funcAnalysis) access(kind byte, loc string, roots TagSet, site string)
 	})
 	for _, r := range real {
 		k := accKey{kind, loc, r}
-		if _, ok := fa.sum.Acc[k]; !ok {
+		if old, ok := fa.sum.Acc[k]; !ok || site < old {
 			fa.sum.Acc[k] = site
 		}
 	}
@@ -1196,7 +1196,7 @@ func (fa *funcAnalysis) opaqueCall(f *ssa.Function, cc *ssa.CallCommon, ins ssa.
 		d := fa.D(cc.Args[0])
 		fa.access('w', withElems(locOf(cc.Args[0])), union(d[0], d[1]), site)
 	case pkg == "github.com/casbin/govaluate":
-		// opaque by decision (README.md): evaluating / compiling an expression is assumed not to
+		// opaque by decision (see the header of main.go): evaluating / compiling an expression is assumed not to
 		// write to the compiled expression; the functions and parameters it was given are
 		// invoked from here
 		tags := union(fa.allArgTags(cc), TagSet{tagShared: true})
